@@ -1167,6 +1167,10 @@ def run(rep, repo, tier):
         # file-local helpers (e.g. a static function factored out of unwait_one/unwait_all) are folded into their callers,
         # so that the lockset of the helper's body is the lockset at its call sites
         j['inline'] = keep_all_but_new_helpers()
+    # member helpers a refactoring may add to the witness classes (safe_queue::acquire()/release() around the semaphore) are
+    # folded into the members that call them
+    from irlib import keep_known_members
+    jobs[4]['inline'] = keep_known_members(('igris::safe_queue<',), ('safe_queue', '~safe_queue', 'push', 'pop', 'size'))
     mw, ml, ms, mf, mx = compile_many(jobs, repo)
     rep.units += ['igris/osinter/wait.cpp', 'igris/osinter/wait-linux.cpp', 'igris/sync/syslock_mutex.cpp',
                   'igris/sync/semaphore.cpp (fallback branch, -D__has_include(x)=0)',
